@@ -1,4 +1,1269 @@
-//! C18 (to be filled in)
-pub fn main(_seed: u64, _n: usize) {
-    println!("SUMMARY cases=0 failures=0");
+//! C18: custom strategies get validated inputs, correct targets, faithful accessors.
+//!
+//! Recording strategies (`Rec1`/`Rec2`) log every `build` and `interp_into` invocation they
+//! receive from the crate, check the interpolator's accessors against the raw inputs they were
+//! built from and can be told to fail at `build` or at the k-th `interp_into`.
+//! An oracle that only looks at the inputs decides what must have been logged and returned.
+
+use std::collections::BTreeMap;
+use std::panic::{catch_unwind, AssertUnwindSafe};
+use std::sync::{Arc, Mutex, MutexGuard};
+
+use ndarray::{
+    Array, Array1, Array2, ArrayBase, ArrayD, ArrayViewMut, Data, DimAdd, Dimension, Ix0, Ix1,
+    Ix2, IxDyn, OwnedRepr, RemoveAxis,
+};
+use ndarray_interp::interp1d::{
+    Interp1D, Interp1DBuilder, Interp1DStrategy, Interp1DStrategyBuilder,
+};
+use ndarray_interp::interp2d::{
+    Interp2D, Interp2DBuilder, Interp2DStrategy, Interp2DStrategyBuilder,
+};
+use ndarray_interp::{BuilderError, InterpolateError};
+
+// ---------------------------------------------------------------------------------------------
+// PRNG
+
+/// splitmix64: the single source of randomness of this check
+struct Rng(u64);
+
+impl Rng {
+    fn next(&mut self) -> u64 {
+        self.0 = self.0.wrapping_add(0x9E37_79B9_7F4A_7C15);
+        let mut z = self.0;
+        z = (z ^ (z >> 30)).wrapping_mul(0xBF58_476D_1CE4_E5B9);
+        z = (z ^ (z >> 27)).wrapping_mul(0x94D0_49BB_1331_11EB);
+        z ^ (z >> 31)
+    }
+    fn below(&mut self, n: usize) -> usize {
+        (self.next() % n as u64) as usize
+    }
+    /// inclusive range
+    fn range(&mut self, lo: usize, hi: usize) -> usize {
+        lo + self.below(hi - lo + 1)
+    }
+    fn unit(&mut self) -> f64 {
+        (self.next() >> 11) as f64 / (1u64 << 53) as f64
+    }
+    fn uniform(&mut self, lo: f64, hi: f64) -> f64 {
+        lo + (hi - lo) * self.unit()
+    }
+    fn chance(&mut self, p: f64) -> bool {
+        self.unit() < p
+    }
+    /// quiet NaN with a random payload and sign: must travel through the crate bit-for-bit
+    fn nan(&mut self) -> f64 {
+        let r = self.next();
+        f64::from_bits(0x7ff8_0000_0000_0000 | (r & 0x8007_ffff_ffff_ffff))
+    }
+}
+
+// ---------------------------------------------------------------------------------------------
+// what the recording strategies log
+
+const BUILD_MSG: &str = "custom-build-failure";
+const CALL_MSG: &str = "custom-fail";
+const POISON: u64 = 0x7ff8_dead_beef_0002;
+
+#[derive(Clone, Copy, PartialEq, Eq, Debug)]
+enum FailBuild {
+    NotEnoughData,
+    Monotonic,
+    ShapeError,
+    ValueError,
+}
+
+impl FailBuild {
+    fn error(self) -> BuilderError {
+        match self {
+            FailBuild::NotEnoughData => BuilderError::NotEnoughData(BUILD_MSG.into()),
+            FailBuild::Monotonic => BuilderError::Monotonic(BUILD_MSG.into()),
+            FailBuild::ShapeError => BuilderError::ShapeError(BUILD_MSG.into()),
+            FailBuild::ValueError => BuilderError::ValueError(BUILD_MSG.into()),
+        }
+    }
+    fn matches(self, e: &BuilderError) -> bool {
+        let (same_variant, msg) = match (self, e) {
+            (FailBuild::NotEnoughData, BuilderError::NotEnoughData(m)) => (true, m),
+            (FailBuild::Monotonic, BuilderError::Monotonic(m)) => (true, m),
+            (FailBuild::ShapeError, BuilderError::ShapeError(m)) => (true, m),
+            (FailBuild::ValueError, BuilderError::ValueError(m)) => (true, m),
+            _ => return false,
+        };
+        same_variant && msg == BUILD_MSG
+    }
+}
+
+/// the arguments of one `build` invocation (`y` empty for 1-D strategies)
+struct BuildRec {
+    x: Vec<u64>,
+    y: Vec<u64>,
+    shape: Vec<usize>,
+    data: Vec<u64>,
+}
+
+/// the arguments of one `interp_into` invocation (`qy` is 0 for 1-D strategies)
+struct CallRec {
+    index: usize,
+    qx: u64,
+    qy: u64,
+    target: Vec<usize>,
+}
+
+#[derive(Default)]
+struct Log {
+    builds: Vec<BuildRec>,
+    calls: Vec<CallRec>,
+    /// accessor checks that failed inside `interp_into`
+    accessor: Vec<String>,
+}
+
+type SharedLog = Arc<Mutex<Log>>;
+
+fn lock(log: &SharedLog) -> MutexGuard<'_, Log> {
+    log.lock().unwrap_or_else(|e| e.into_inner())
+}
+
+fn bits<'a>(values: impl IntoIterator<Item = &'a f64>) -> Vec<u64> {
+    values.into_iter().map(|v| v.to_bits()).collect()
+}
+
+fn hex(b: &[u64]) -> String {
+    b.iter()
+        .map(|v| format!("{v:016x}"))
+        .collect::<Vec<_>>()
+        .join(",")
+}
+
+fn fmt_shape(shape: &[usize]) -> String {
+    if shape.is_empty() {
+        "scalar".into()
+    } else {
+        shape
+            .iter()
+            .map(|n| n.to_string())
+            .collect::<Vec<_>>()
+            .join("x")
+    }
+}
+
+/// the recognisable value a strategy writes into lane `lane` of the target of call `call`
+fn written(call: usize, lane: usize) -> f64 {
+    ((call + 1) * 64 + lane) as f64 + 0.5
+}
+
+/// the index `get_index_left_of` must return for `q` on `axis` (bit patterns), if determined
+fn check_left_index(name: &str, axis: &[u64], q: f64, idx: usize, out: &mut Vec<String>) {
+    if q.is_nan() {
+        return;
+    }
+    let at = |i: usize| f64::from_bits(axis[i]);
+    let n = axis.len();
+    let good = if q < at(0) {
+        idx == 0
+    } else if q > at(n - 1) {
+        idx == n - 2
+    } else {
+        idx + 1 < n && at(idx) <= q && q <= at(idx + 1)
+    };
+    if !good {
+        out.push(format!(
+            "get_index_left_of:{name}:q={:016x}:returned={idx}:axis={}",
+            q.to_bits(),
+            hex(axis)
+        ));
+    }
+}
+
+fn check_in_range(name: &str, axis: &[u64], q: f64, got: bool, out: &mut Vec<String>) {
+    let (lo, hi) = (f64::from_bits(axis[0]), f64::from_bits(axis[axis.len() - 1]));
+    if got != (lo <= q && q <= hi) {
+        out.push(format!(
+            "is_in_range:{name}:q={:016x}:returned={got}:axis={}",
+            q.to_bits(),
+            hex(axis)
+        ));
+    }
+}
+
+// ---------------------------------------------------------------------------------------------
+// 1-D recording strategy
+
+struct Rec1<const MIN: usize> {
+    log: SharedLog,
+    fail_build: Option<FailBuild>,
+    fail_at: Option<usize>,
+}
+
+struct Rec1Strat {
+    log: SharedLog,
+    fail_at: Option<usize>,
+    x: Vec<u64>,
+    shape: Vec<usize>,
+    data: Vec<u64>,
+}
+
+impl<const MIN: usize, Sd, Sx, D> Interp1DStrategyBuilder<Sd, Sx, D> for Rec1<MIN>
+where
+    Sd: Data<Elem = f64>,
+    Sx: Data<Elem = f64>,
+    D: Dimension + RemoveAxis,
+{
+    const MINIMUM_DATA_LENGHT: usize = MIN;
+    type FinishedStrat = Rec1Strat;
+
+    fn build<Sx2>(
+        self,
+        x: &ArrayBase<Sx2, Ix1>,
+        data: &ArrayBase<Sd, D>,
+    ) -> Result<Self::FinishedStrat, BuilderError>
+    where
+        Sx2: Data<Elem = f64>,
+    {
+        let rec = BuildRec {
+            x: bits(x),
+            y: Vec::new(),
+            shape: data.shape().to_vec(),
+            data: bits(data),
+        };
+        let strat = Rec1Strat {
+            log: self.log.clone(),
+            fail_at: self.fail_at,
+            x: rec.x.clone(),
+            shape: rec.shape.clone(),
+            data: rec.data.clone(),
+        };
+        lock(&self.log).builds.push(rec);
+        match self.fail_build {
+            Some(kind) => Err(kind.error()),
+            None => Ok(strat),
+        }
+    }
+}
+
+impl<Sd, Sx, D> Interp1DStrategy<Sd, Sx, D> for Rec1Strat
+where
+    Sd: Data<Elem = f64>,
+    Sx: Data<Elem = f64>,
+    D: Dimension + RemoveAxis,
+{
+    fn interp_into(
+        &self,
+        interpolator: &Interp1D<Sd, Sx, D, Self>,
+        mut target: ArrayViewMut<'_, f64, D::Smaller>,
+        x: f64,
+    ) -> Result<(), InterpolateError> {
+        let mut log = lock(&self.log);
+        let index = log.calls.len();
+        log.calls.push(CallRec {
+            index,
+            qx: x.to_bits(),
+            qy: 0,
+            target: target.shape().to_vec(),
+        });
+
+        let lanes: usize = self.shape[1..].iter().product();
+        for i in 0..self.x.len() {
+            let (xi, row) = interpolator.index_point(i);
+            let same = xi.to_bits() == self.x[i]
+                && row.shape() == &self.shape[1..]
+                && bits(&row) == self.data[i * lanes..(i + 1) * lanes];
+            if !same {
+                log.accessor.push(format!(
+                    "index_point:{i}:x={:016x}:row={}:{}",
+                    xi.to_bits(),
+                    fmt_shape(row.shape()),
+                    hex(&bits(&row))
+                ));
+            }
+        }
+        check_in_range("x", &self.x, x, interpolator.is_in_range(x), &mut log.accessor);
+        if !x.is_nan() {
+            let idx = interpolator.get_index_left_of(x);
+            check_left_index("x", &self.x, x, idx, &mut log.accessor);
+        }
+
+        for (lane, t) in target.iter_mut().enumerate() {
+            *t = written(index, lane);
+        }
+        if self.fail_at == Some(index) {
+            Err(InterpolateError::OutOfBounds(CALL_MSG.into()))
+        } else {
+            Ok(())
+        }
+    }
+}
+
+// ---------------------------------------------------------------------------------------------
+// 2-D recording strategy
+
+struct Rec2<const MIN: usize> {
+    log: SharedLog,
+    fail_build: Option<FailBuild>,
+    fail_at: Option<usize>,
+}
+
+struct Rec2Strat {
+    log: SharedLog,
+    fail_at: Option<usize>,
+    x: Vec<u64>,
+    y: Vec<u64>,
+    shape: Vec<usize>,
+    data: Vec<u64>,
+}
+
+impl<const MIN: usize, Sd, Sx, Sy, D> Interp2DStrategyBuilder<Sd, Sx, Sy, D> for Rec2<MIN>
+where
+    Sd: Data<Elem = f64>,
+    Sx: Data<Elem = f64>,
+    Sy: Data<Elem = f64>,
+    D: Dimension + RemoveAxis,
+    D::Smaller: RemoveAxis,
+{
+    const MINIMUM_DATA_LENGHT: usize = MIN;
+    type FinishedStrat = Rec2Strat;
+
+    fn build(
+        self,
+        x: &ArrayBase<Sx, Ix1>,
+        y: &ArrayBase<Sy, Ix1>,
+        data: &ArrayBase<Sd, D>,
+    ) -> Result<Self::FinishedStrat, BuilderError> {
+        let rec = BuildRec {
+            x: bits(x),
+            y: bits(y),
+            shape: data.shape().to_vec(),
+            data: bits(data),
+        };
+        let strat = Rec2Strat {
+            log: self.log.clone(),
+            fail_at: self.fail_at,
+            x: rec.x.clone(),
+            y: rec.y.clone(),
+            shape: rec.shape.clone(),
+            data: rec.data.clone(),
+        };
+        lock(&self.log).builds.push(rec);
+        match self.fail_build {
+            Some(kind) => Err(kind.error()),
+            None => Ok(strat),
+        }
+    }
+}
+
+impl<Sd, Sx, Sy, D> Interp2DStrategy<Sd, Sx, Sy, D> for Rec2Strat
+where
+    Sd: Data<Elem = f64>,
+    Sx: Data<Elem = f64>,
+    Sy: Data<Elem = f64>,
+    D: Dimension + RemoveAxis,
+    D::Smaller: RemoveAxis,
+{
+    fn interp_into(
+        &self,
+        interpolator: &Interp2D<Sd, Sx, Sy, D, Self>,
+        mut target: ArrayViewMut<'_, f64, <D::Smaller as Dimension>::Smaller>,
+        x: f64,
+        y: f64,
+    ) -> Result<(), InterpolateError> {
+        let mut log = lock(&self.log);
+        let index = log.calls.len();
+        log.calls.push(CallRec {
+            index,
+            qx: x.to_bits(),
+            qy: y.to_bits(),
+            target: target.shape().to_vec(),
+        });
+
+        let lanes: usize = self.shape[2..].iter().product();
+        let ny = self.y.len();
+        for i in 0..self.x.len() {
+            for j in 0..ny {
+                let (xi, yj, cell) = interpolator.index_point(i, j);
+                let at = (i * ny + j) * lanes;
+                let same = xi.to_bits() == self.x[i]
+                    && yj.to_bits() == self.y[j]
+                    && cell.shape() == &self.shape[2..]
+                    && bits(&cell) == self.data[at..at + lanes];
+                if !same {
+                    log.accessor.push(format!(
+                        "index_point:{i},{j}:x={:016x}:y={:016x}:cell={}:{}",
+                        xi.to_bits(),
+                        yj.to_bits(),
+                        fmt_shape(cell.shape()),
+                        hex(&bits(&cell))
+                    ));
+                }
+            }
+        }
+        check_in_range("x", &self.x, x, interpolator.is_in_x_range(x), &mut log.accessor);
+        check_in_range("y", &self.y, y, interpolator.is_in_y_range(y), &mut log.accessor);
+        if !x.is_nan() && !y.is_nan() {
+            let (ix, iy) = interpolator.get_index_left_of(x, y);
+            check_left_index("x", &self.x, x, ix, &mut log.accessor);
+            check_left_index("y", &self.y, y, iy, &mut log.accessor);
+        }
+
+        for (lane, t) in target.iter_mut().enumerate() {
+            *t = written(index, lane);
+        }
+        if self.fail_at == Some(index) {
+            Err(InterpolateError::OutOfBounds(CALL_MSG.into()))
+        } else {
+            Ok(())
+        }
+    }
+}
+
+type Built1<D> = Interp1D<OwnedRepr<f64>, OwnedRepr<f64>, D, Rec1Strat>;
+type Built2<D> = Interp2D<OwnedRepr<f64>, OwnedRepr<f64>, OwnedRepr<f64>, D, Rec2Strat>;
+
+// ---------------------------------------------------------------------------------------------
+// entry points
+
+#[derive(Clone, Copy, PartialEq, Eq, Debug)]
+enum Entry {
+    Scalar,
+    Interp,
+    InterpInto,
+    Array,
+    ArrayIx1,
+    ArrayInto,
+    ArrayIntoIx1,
+}
+
+impl Entry {
+    fn name(self) -> &'static str {
+        match self {
+            Entry::Scalar => "interp_scalar",
+            Entry::Interp => "interp",
+            Entry::InterpInto => "interp_into",
+            Entry::Array => "interp_array",
+            Entry::ArrayIx1 => "interp_array_ix1",
+            Entry::ArrayInto => "interp_array_into",
+            Entry::ArrayIntoIx1 => "interp_array_into_ix1",
+        }
+    }
+    fn takes_buffer(self) -> bool {
+        matches!(
+            self,
+            Entry::InterpInto | Entry::ArrayInto | Entry::ArrayIntoIx1
+        )
+    }
+}
+
+/// one call through an entry point: the queries and the (correct) buffer shape
+struct Call {
+    entry: Entry,
+    qshape: Vec<usize>,
+    qx: Vec<f64>,
+    /// same length as `qx` for 2-D, empty for 1-D
+    qy: Vec<f64>,
+    /// data shape minus the interpolated axes
+    trailing: Vec<usize>,
+}
+
+impl Call {
+    fn out_shape(&self) -> Vec<usize> {
+        let mut s = self.qshape.clone();
+        s.extend_from_slice(&self.trailing);
+        s
+    }
+}
+
+/// what the caller of an entry point got back: the result, and the returned array or the
+/// state of the buffer it passed in
+struct Outcome {
+    result: Result<(), InterpolateError>,
+    shape: Vec<usize>,
+    bits: Vec<u64>,
+}
+
+fn from_value(r: Result<f64, InterpolateError>) -> Outcome {
+    match r {
+        Ok(v) => Outcome {
+            result: Ok(()),
+            shape: Vec::new(),
+            bits: vec![v.to_bits()],
+        },
+        Err(e) => from_error(e),
+    }
+}
+
+fn from_error(e: InterpolateError) -> Outcome {
+    Outcome {
+        result: Err(e),
+        shape: Vec::new(),
+        bits: Vec::new(),
+    }
+}
+
+fn from_array<D: Dimension>(r: Result<Array<f64, D>, InterpolateError>) -> Outcome {
+    match r {
+        Ok(a) => Outcome {
+            result: Ok(()),
+            shape: a.shape().to_vec(),
+            bits: bits(&a),
+        },
+        Err(e) => from_error(e),
+    }
+}
+
+fn from_buffer<D: Dimension>(result: Result<(), InterpolateError>, buf: &Array<f64, D>) -> Outcome {
+    Outcome {
+        result,
+        shape: buf.shape().to_vec(),
+        bits: bits(buf),
+    }
+}
+
+fn poisoned<D: Dimension>(shape: &[usize]) -> Array<f64, D> {
+    ArrayD::from_elem(IxDyn(shape), f64::from_bits(POISON))
+        .into_dimensionality::<D>()
+        .expect("harness: buffer rank")
+}
+
+fn dyn_query(shape: &[usize], values: &[f64]) -> ArrayD<f64> {
+    ArrayD::from_shape_vec(IxDyn(shape), values.to_vec()).expect("harness: query shape")
+}
+
+/// a built interpolator that can be driven through any entry point
+trait Drive {
+    const HAS_SCALAR: bool;
+    fn drive(&self, call: &Call) -> Outcome;
+}
+
+// The `DimExtension` bound of `interp_array` is private to the crate, so the entry points can
+// only be called at concrete dimension types: `$d` data, `$s` = `$d` minus the interpolated axes.
+macro_rules! impl_drive_1d {
+    ($d:ty, $s:ty, $has_scalar:expr, $scalar:expr) => {
+        impl Drive for Built1<$d> {
+            const HAS_SCALAR: bool = $has_scalar;
+            fn drive(&self, call: &Call) -> Outcome {
+                let q = call.qx.first().copied().unwrap_or(f64::NAN);
+                match call.entry {
+                    Entry::Scalar => {
+                        let scalar: fn(&Self, f64) -> Outcome = $scalar;
+                        scalar(self, q)
+                    }
+                    Entry::Interp => from_array(self.interp(q)),
+                    Entry::InterpInto => {
+                        let mut buf = poisoned::<$s>(&call.trailing);
+                        let r = self.interp_into(q, buf.view_mut());
+                        from_buffer(r, &buf)
+                    }
+                    Entry::Array => {
+                        from_array(self.interp_array(&dyn_query(&call.qshape, &call.qx)))
+                    }
+                    Entry::ArrayIx1 => {
+                        from_array(self.interp_array(&Array1::from(call.qx.clone())))
+                    }
+                    Entry::ArrayInto => {
+                        let mut buf =
+                            poisoned::<<IxDyn as DimAdd<$s>>::Output>(&call.out_shape());
+                        let qs = dyn_query(&call.qshape, &call.qx);
+                        let r = self.interp_array_into(&qs, buf.view_mut());
+                        from_buffer(r, &buf)
+                    }
+                    Entry::ArrayIntoIx1 => {
+                        let mut buf = poisoned::<<Ix1 as DimAdd<$s>>::Output>(&call.out_shape());
+                        let qs = Array1::from(call.qx.clone());
+                        let r = self.interp_array_into(&qs, buf.view_mut());
+                        from_buffer(r, &buf)
+                    }
+                }
+            }
+        }
+    };
+}
+
+impl_drive_1d!(Ix1, Ix0, true, |this, q| from_value(this.interp_scalar(q)));
+impl_drive_1d!(IxDyn, IxDyn, false, |_, _| unreachable!(
+    "interp_scalar needs statically 1-dimensional data"
+));
+
+macro_rules! impl_drive_2d {
+    ($d:ty, $s:ty, $has_scalar:expr, $scalar:expr) => {
+        impl Drive for Built2<$d> {
+            const HAS_SCALAR: bool = $has_scalar;
+            fn drive(&self, call: &Call) -> Outcome {
+                let x = call.qx.first().copied().unwrap_or(f64::NAN);
+                let y = call.qy.first().copied().unwrap_or(f64::NAN);
+                match call.entry {
+                    Entry::Scalar => {
+                        let scalar: fn(&Self, f64, f64) -> Outcome = $scalar;
+                        scalar(self, x, y)
+                    }
+                    Entry::Interp => from_array(self.interp(x, y)),
+                    Entry::InterpInto => {
+                        let mut buf = poisoned::<$s>(&call.trailing);
+                        let r = self.interp_into(x, y, buf.view_mut());
+                        from_buffer(r, &buf)
+                    }
+                    Entry::Array => from_array(self.interp_array(
+                        &dyn_query(&call.qshape, &call.qx),
+                        &dyn_query(&call.qshape, &call.qy),
+                    )),
+                    Entry::ArrayIx1 => from_array(self.interp_array(
+                        &Array1::from(call.qx.clone()),
+                        &Array1::from(call.qy.clone()),
+                    )),
+                    Entry::ArrayInto => {
+                        let mut buf =
+                            poisoned::<<IxDyn as DimAdd<$s>>::Output>(&call.out_shape());
+                        let xs = dyn_query(&call.qshape, &call.qx);
+                        let ys = dyn_query(&call.qshape, &call.qy);
+                        let r = self.interp_array_into(&xs, &ys, buf.view_mut());
+                        from_buffer(r, &buf)
+                    }
+                    Entry::ArrayIntoIx1 => {
+                        let mut buf = poisoned::<<Ix1 as DimAdd<$s>>::Output>(&call.out_shape());
+                        let xs = Array1::from(call.qx.clone());
+                        let ys = Array1::from(call.qy.clone());
+                        let r = self.interp_array_into(&xs, &ys, buf.view_mut());
+                        from_buffer(r, &buf)
+                    }
+                }
+            }
+        }
+    };
+}
+
+impl_drive_2d!(Ix2, Ix0, true, |this, x, y| from_value(this.interp_scalar(x, y)));
+impl_drive_2d!(IxDyn, IxDyn, false, |_, _, _| unreachable!(
+    "interp_scalar needs statically 2-dimensional data"
+));
+
+// ---------------------------------------------------------------------------------------------
+// cases
+
+struct Case {
+    two_d: bool,
+    min: usize,
+    /// statically typed data (`Ix1` / `Ix2`) instead of `IxDyn`
+    static_dim: bool,
+    shape: Vec<usize>,
+    values: Vec<f64>,
+    /// explicit axes; `None` leaves the builder's default index axis in place
+    x: Option<Vec<f64>>,
+    y: Option<Vec<f64>>,
+    fail_build: Option<FailBuild>,
+    fail_at: Option<usize>,
+    call: Call,
+}
+
+impl Case {
+    fn interp_axes(&self) -> usize {
+        if self.two_d {
+            2
+        } else {
+            1
+        }
+    }
+
+    /// the axis the strategy must see for data axis `ax`
+    fn effective_axis(&self, ax: usize) -> Vec<f64> {
+        let explicit = if ax == 0 { &self.x } else { &self.y };
+        match explicit {
+            Some(v) => v.clone(),
+            None => (0..self.shape.get(ax).copied().unwrap_or(0))
+                .map(|i| i as f64)
+                .collect(),
+        }
+    }
+
+    /// why the inputs must be rejected before the strategy is consulted (empty: they are valid)
+    fn invalid_reasons(&self) -> Vec<&'static str> {
+        let need = self.interp_axes();
+        if self.shape.len() < need {
+            return vec!["rank"];
+        }
+        let mut reasons = Vec::new();
+        for ax in 0..need {
+            let axis = self.effective_axis(ax);
+            if self.shape[ax] < self.min {
+                reasons.push("min");
+            }
+            if axis.len() != self.shape[ax] {
+                reasons.push("length");
+            }
+            if !strictly_increasing(&axis) {
+                reasons.push("monotonic");
+            }
+        }
+        reasons.sort_unstable();
+        reasons.dedup();
+        reasons
+    }
+
+    fn describe(&self) -> String {
+        let axis = |a: &Option<Vec<f64>>| match a {
+            None => "default".to_string(),
+            Some(v) => format!("[{}]", hex(&bits(v))),
+        };
+        let mut s = format!(
+            "dim={};min={};dims={};shape={};data=[{}];x={}",
+            if self.two_d { "2d" } else { "1d" },
+            self.min,
+            if self.static_dim { "static" } else { "dyn" },
+            fmt_shape(&self.shape),
+            hex(&bits(&self.values)),
+            axis(&self.x),
+        );
+        if self.two_d {
+            s.push_str(&format!(";y={}", axis(&self.y)));
+        }
+        s.push_str(&format!(
+            ";fail_build={:?};entry={};qshape={};qx=[{}]",
+            self.fail_build,
+            self.call.entry.name(),
+            fmt_shape(&self.call.qshape),
+            hex(&bits(&self.call.qx)),
+        ));
+        if self.two_d {
+            s.push_str(&format!(";qy=[{}]", hex(&bits(&self.call.qy))));
+        }
+        s.push_str(&format!(";fail_at={:?}", self.fail_at));
+        s
+    }
+}
+
+/// an axis with fewer than two points is not strictly increasing
+fn strictly_increasing(v: &[f64]) -> bool {
+    v.len() >= 2 && v.windows(2).all(|w| w[0] < w[1])
+}
+
+fn gen_value(rng: &mut Rng) -> f64 {
+    match rng.below(40) {
+        0 => rng.nan(),
+        1 => -0.0,
+        2 => f64::INFINITY,
+        3 => f64::from_bits(rng.next() & 0x7fef_ffff_ffff_ffff),
+        _ => rng.uniform(-10.0, 10.0),
+    }
+}
+
+/// an axis for a data axis of length `len`: usually valid, otherwise broken in one named way
+fn gen_axis(rng: &mut Rng, len: usize) -> Vec<f64> {
+    let rising = |rng: &mut Rng, n: usize| {
+        let mut cur = rng.uniform(-5.0, 5.0);
+        (0..n)
+            .map(|_| {
+                let v = cur;
+                cur += rng.uniform(0.1, 2.0);
+                v
+            })
+            .collect::<Vec<f64>>()
+    };
+    let mut axis = rising(rng, len);
+    if rng.chance(0.7) {
+        return axis;
+    }
+    loop {
+        match rng.below(7) {
+            0 if len >= 2 => {
+                let i = rng.below(len - 1);
+                axis[i + 1] = axis[i];
+            }
+            1 if len >= 2 => {
+                let i = rng.below(len - 1);
+                axis.swap(i, i + 1);
+            }
+            2 if len >= 1 => {
+                let i = rng.below(len);
+                axis[i] = rng.nan();
+            }
+            3 if len >= 2 => axis.reverse(),
+            4 => axis = rising(rng, len + 1),
+            5 if len >= 1 => axis = rising(rng, len - 1),
+            6 => axis = rising(rng, 1),
+            _ => continue,
+        }
+        return axis;
+    }
+}
+
+fn gen_query(rng: &mut Rng, axis: &[f64]) -> f64 {
+    let (lo, hi) = if strictly_increasing(axis) {
+        (axis[0], axis[axis.len() - 1])
+    } else {
+        (0.0, 1.0)
+    };
+    match rng.below(50) {
+        0..=24 => rng.uniform(lo, hi),
+        25..=29 if !axis.is_empty() => axis[rng.below(axis.len())],
+        30..=32 => lo - rng.uniform(0.001, 4.0),
+        33..=35 => hi + rng.uniform(0.001, 4.0),
+        36..=39 => rng.nan(),
+        40 => f64::INFINITY,
+        41 => f64::NEG_INFINITY,
+        42 => -0.0,
+        43 => 0.0,
+        44..=46 => f64::from_bits(rng.next() & 0xffef_ffff_ffff_ffff),
+        _ => rng.uniform(lo, hi),
+    }
+}
+
+fn gen_case(rng: &mut Rng, cycle: &mut usize) -> Case {
+    let two_d = rng.chance(0.5);
+    let need = if two_d { 2 } else { 1 };
+    let min = rng.below(5);
+
+    let mut shape = Vec::new();
+    if rng.chance(0.05) {
+        // data without (all of) the interpolated axes
+        for _ in 0..rng.below(need) {
+            shape.push(rng.range(0, 6));
+        }
+    } else {
+        for _ in 0..need {
+            shape.push(if rng.chance(0.6) {
+                rng.range(min.max(2), 6)
+            } else {
+                rng.range(0, 6)
+            });
+        }
+        // half of the cases have no trailing axes, so that static dimensions are common
+        for _ in 0..rng.below(4).saturating_sub(1) {
+            shape.push(if rng.chance(0.05) { 0 } else { rng.range(1, 3) });
+        }
+    }
+    let total: usize = shape.iter().product();
+    let values: Vec<f64> = (0..total).map(|_| gen_value(rng)).collect();
+
+    let axis_for = |rng: &mut Rng, ax: usize| {
+        if rng.chance(0.3) {
+            None
+        } else {
+            Some(gen_axis(rng, shape.get(ax).copied().unwrap_or(0)))
+        }
+    };
+    let x = axis_for(rng, 0);
+    let y = if two_d { axis_for(rng, 1) } else { None };
+    let static_dim = shape.len() == need && rng.chance(0.6);
+    let fail_build = if rng.chance(0.15) {
+        Some(match rng.below(4) {
+            0 => FailBuild::NotEnoughData,
+            1 => FailBuild::Monotonic,
+            2 => FailBuild::ShapeError,
+            _ => FailBuild::ValueError,
+        })
+    } else {
+        None
+    };
+
+    // `interp_scalar` only exists for statically typed data
+    let entry = if static_dim && rng.chance(0.25) {
+        Entry::Scalar
+    } else {
+        match rng.below(6) {
+            0 => Entry::Interp,
+            1 => Entry::InterpInto,
+            2 => Entry::Array,
+            3 => Entry::ArrayIx1,
+            4 => Entry::ArrayInto,
+            _ => Entry::ArrayIntoIx1,
+        }
+    };
+    let qshape: Vec<usize> = match entry {
+        Entry::Scalar | Entry::Interp | Entry::InterpInto => Vec::new(),
+        Entry::ArrayIx1 | Entry::ArrayIntoIx1 => vec![rng.range(0, 5)],
+        Entry::Array | Entry::ArrayInto => (0..rng.below(4))
+            .map(|_| if rng.chance(0.08) { 0 } else { rng.range(1, 3) })
+            .collect(),
+    };
+    let count: usize = qshape.iter().product();
+
+    let mut case = Case {
+        two_d,
+        min,
+        static_dim,
+        shape,
+        values,
+        x,
+        y,
+        fail_build,
+        fail_at: None,
+        call: Call {
+            entry,
+            qshape,
+            qx: Vec::new(),
+            qy: Vec::new(),
+            trailing: Vec::new(),
+        },
+    };
+    case.call.trailing = case.shape.get(need..).unwrap_or(&[]).to_vec();
+    let (ax, ay) = (case.effective_axis(0), case.effective_axis(1));
+    for _ in 0..count {
+        case.call.qx.push(gen_query(rng, &ax));
+        if two_d {
+            case.call.qy.push(gen_query(rng, &ay));
+        }
+    }
+    // the failing call cycles through every position of the batch across cases
+    case.fail_at = match rng.below(20) {
+        0..=8 => None,
+        9 => Some(count + rng.below(3)),
+        _ if count == 0 => None,
+        _ => {
+            *cycle += 1;
+            Some(*cycle % count)
+        }
+    };
+    case
+}
+
+// ---------------------------------------------------------------------------------------------
+// execution
+
+/// what happened when the case was run against the crate
+struct Observed {
+    /// `Err(text)`: `build()` panicked
+    build: Result<Result<(), BuilderError>, String>,
+    /// `None`: nothing was called (no interpolator); `Err(text)`: the entry point panicked
+    call: Option<Result<Outcome, String>>,
+}
+
+fn panic_text(payload: Box<dyn std::any::Any + Send>) -> String {
+    if let Some(s) = payload.downcast_ref::<String>() {
+        s.clone()
+    } else if let Some(s) = payload.downcast_ref::<&str>() {
+        (*s).to_string()
+    } else {
+        "<non-string panic payload>".to_string()
+    }
+}
+
+fn observe<I: Drive>(
+    case: &Case,
+    build: impl FnOnce() -> Result<I, BuilderError>,
+) -> Observed {
+    match catch_unwind(AssertUnwindSafe(build)) {
+        Err(p) => Observed {
+            build: Err(panic_text(p)),
+            call: None,
+        },
+        Ok(Err(e)) => Observed {
+            build: Ok(Err(e)),
+            call: None,
+        },
+        Ok(Ok(interp)) => {
+            debug_assert!(I::HAS_SCALAR || case.call.entry != Entry::Scalar);
+            let call = catch_unwind(AssertUnwindSafe(|| interp.drive(&case.call)));
+            Observed {
+                build: Ok(Ok(())),
+                call: Some(call.map_err(panic_text)),
+            }
+        }
+    }
+}
+
+fn build_1d<const MIN: usize, D>(
+    case: &Case,
+    data: Array<f64, D>,
+    log: &SharedLog,
+) -> Result<Built1<D>, BuilderError>
+where
+    D: Dimension + RemoveAxis,
+{
+    let rec = Rec1::<MIN> {
+        log: log.clone(),
+        fail_build: case.fail_build,
+        fail_at: case.fail_at,
+    };
+    let mut builder = Interp1DBuilder::new(data);
+    if let Some(x) = &case.x {
+        builder = builder.x(Array1::from(x.clone()));
+    }
+    builder.strategy(rec).build()
+}
+
+fn build_2d<const MIN: usize, D>(
+    case: &Case,
+    data: Array<f64, D>,
+    log: &SharedLog,
+) -> Result<Built2<D>, BuilderError>
+where
+    D: Dimension + RemoveAxis,
+    D::Smaller: RemoveAxis,
+{
+    let rec = Rec2::<MIN> {
+        log: log.clone(),
+        fail_build: case.fail_build,
+        fail_at: case.fail_at,
+    };
+    let mut builder = Interp2DBuilder::new(data);
+    if let Some(x) = &case.x {
+        builder = builder.x(Array1::from(x.clone()));
+    }
+    if let Some(y) = &case.y {
+        builder = builder.y(Array1::from(y.clone()));
+    }
+    builder.strategy(rec).build()
+}
+
+macro_rules! with_min {
+    ($min:expr, $build:ident, $d:ty, $($arg:expr),*) => {
+        match $min {
+            0 => $build::<0, $d>($($arg),*),
+            1 => $build::<1, $d>($($arg),*),
+            2 => $build::<2, $d>($($arg),*),
+            3 => $build::<3, $d>($($arg),*),
+            _ => $build::<4, $d>($($arg),*),
+        }
+    };
+}
+
+fn run_case(case: &Case, log: &SharedLog) -> Observed {
+    let dynamic = || {
+        ArrayD::from_shape_vec(IxDyn(&case.shape), case.values.clone())
+            .expect("harness: data shape")
+    };
+    match (case.two_d, case.static_dim) {
+        (false, true) => {
+            let data = Array1::from(case.values.clone());
+            observe(case, || with_min!(case.min, build_1d, Ix1, case, data, log))
+        }
+        (false, false) => {
+            let data = dynamic();
+            observe(case, || with_min!(case.min, build_1d, IxDyn, case, data, log))
+        }
+        (true, true) => {
+            let data =
+                Array2::from_shape_vec((case.shape[0], case.shape[1]), case.values.clone())
+                    .expect("harness: data shape");
+            observe(case, || with_min!(case.min, build_2d, Ix2, case, data, log))
+        }
+        (true, false) => {
+            let data = dynamic();
+            observe(case, || with_min!(case.min, build_2d, IxDyn, case, data, log))
+        }
+    }
+}
+
+// ---------------------------------------------------------------------------------------------
+// oracle
+
+#[derive(Default)]
+struct Report {
+    hist: BTreeMap<String, usize>,
+    failures: usize,
+    builds_invoked: usize,
+    calls_recorded: usize,
+}
+
+impl Report {
+    fn count(&mut self, key: &str) {
+        *self.hist.entry(key.to_string()).or_insert(0) += 1;
+    }
+}
+
+/// (a) the build guard
+fn check_build(case: &Case, log: &Log, seen: &Observed, fail: &mut dyn FnMut(&str, String)) {
+    let reasons = case.invalid_reasons();
+    let result = match &seen.build {
+        Ok(r) => r,
+        Err(text) => {
+            fail("build-panicked", format!("panic={text:?}"));
+            return;
+        }
+    };
+    if !reasons.is_empty() {
+        if !log.builds.is_empty() {
+            fail(
+                "strategy-built-from-invalid-inputs",
+                format!("invalid={};invocations={}", reasons.join("+"), log.builds.len()),
+            );
+        }
+        if result.is_ok() {
+            fail("invalid-inputs-accepted", format!("invalid={}", reasons.join("+")));
+        }
+        return;
+    }
+    if log.builds.len() != 1 {
+        fail(
+            "strategy-build-invocations",
+            format!("expected=1;got={};result={result:?}", log.builds.len()),
+        );
+    }
+    if let Some(rec) = log.builds.first() {
+        let want_x = bits(&case.effective_axis(0));
+        let want_y = if case.two_d {
+            bits(&case.effective_axis(1))
+        } else {
+            Vec::new()
+        };
+        if rec.x != want_x || rec.y != want_y {
+            fail(
+                "strategy-build-axes",
+                format!("got_x=[{}];got_y=[{}]", hex(&rec.x), hex(&rec.y)),
+            );
+        }
+        if rec.shape != case.shape || rec.data != bits(&case.values) {
+            fail(
+                "strategy-build-data",
+                format!("got_shape={};got_data=[{}]", fmt_shape(&rec.shape), hex(&rec.data)),
+            );
+        }
+    }
+    match (case.fail_build, result) {
+        (None, Ok(())) => {}
+        (None, Err(e)) => fail("valid-inputs-rejected", format!("error={e:?}")),
+        (Some(kind), Err(e)) if kind.matches(e) => {}
+        (Some(kind), other) => fail(
+            "strategy-build-error-not-passed-through",
+            format!("expected={:?};got={other:?}", kind.error()),
+        ),
+    }
+}
+
+/// (b) the calls made through one entry point
+fn check_calls(case: &Case, log: &Log, outcome: &Outcome, fail: &mut dyn FnMut(&str, String)) {
+    let call = &case.call;
+    let count = call.qx.len();
+    let hit = case.fail_at.filter(|&k| k < count);
+    let expected_calls = hit.map_or(count, |k| k + 1);
+
+    if log.calls.len() != expected_calls {
+        fail(
+            "number-of-interp_into-calls",
+            format!("expected={expected_calls};got={}", log.calls.len()),
+        );
+    }
+    for (i, rec) in log.calls.iter().enumerate().take(expected_calls) {
+        let want_y = call.qy.get(i).map_or(0, |q| q.to_bits());
+        if rec.index != i || rec.qx != call.qx[i].to_bits() || rec.qy != want_y {
+            fail(
+                "query-not-passed-unmodified",
+                format!(
+                    "call={i};expected=({:016x},{want_y:016x});got=({:016x},{:016x})",
+                    call.qx[i].to_bits(),
+                    rec.qx,
+                    rec.qy
+                ),
+            );
+        }
+        if rec.target != call.trailing {
+            fail(
+                "target-shape",
+                format!(
+                    "call={i};expected={};got={}",
+                    fmt_shape(&call.trailing),
+                    fmt_shape(&rec.target)
+                ),
+            );
+        }
+    }
+    for a in &log.accessor {
+        fail("accessor", a.clone());
+    }
+
+    let lanes: usize = call.trailing.iter().product();
+    let written_bits = |elements: usize| -> Vec<u64> {
+        (0..elements)
+            .flat_map(|e| (0..lanes).map(move |lane| written(e, lane).to_bits()))
+            .collect()
+    };
+    match (hit, &outcome.result) {
+        (None, Ok(())) => {
+            if outcome.shape != call.out_shape() {
+                fail(
+                    "output-shape",
+                    format!(
+                        "expected={};got={}",
+                        fmt_shape(&call.out_shape()),
+                        fmt_shape(&outcome.shape)
+                    ),
+                );
+            }
+            if outcome.bits != written_bits(count) {
+                fail("output-values", format!("got=[{}]", hex(&outcome.bits)));
+            }
+        }
+        (None, Err(e)) => fail("unexpected-error", format!("error={e:?}")),
+        (Some(k), Ok(())) => fail("strategy-error-swallowed", format!("failing_call={k}")),
+        (Some(k), Err(InterpolateError::OutOfBounds(msg))) => {
+            if msg != CALL_MSG {
+                fail("strategy-error-changed", format!("failing_call={k};got={msg:?}"));
+            }
+            if call.entry.takes_buffer() {
+                // everything up to and including the failing call was written, nothing after it
+                let mut want = written_bits(k + 1);
+                want.resize(count * lanes, POISON);
+                if outcome.bits != want {
+                    fail(
+                        "buffer-after-failure",
+                        format!("failing_call={k};got=[{}]", hex(&outcome.bits)),
+                    );
+                }
+            }
+        }
+    }
+}
+
+pub fn main(seed: u64, n: usize) {
+    let mut rng = Rng(seed);
+    let mut report = Report::default();
+    let mut cycle = 0usize;
+    for idx in 0..n {
+        let case = gen_case(&mut rng, &mut cycle);
+        let log: SharedLog = Arc::default();
+        let seen = run_case(&case, &log);
+        let log = lock(&log);
+
+        let mut failures = 0usize;
+        let mut fail = |what: &str, detail: String| {
+            failures += 1;
+            println!("FAIL case={idx} what={what} detail={detail};{}", case.describe());
+        };
+        check_build(&case, &log, &seen, &mut fail);
+        match &seen.call {
+            None => {}
+            Some(Err(text)) => fail("entry-point-panicked", format!("panic={text:?}")),
+            Some(Ok(outcome)) => check_calls(&case, &log, outcome, &mut fail),
+        }
+        report.failures += failures;
+        report.builds_invoked += log.builds.len();
+        report.calls_recorded += log.calls.len();
+
+        report.count(if case.two_d { "dim_2d" } else { "dim_1d" });
+        report.count(if case.static_dim { "dims_static" } else { "dims_dyn" });
+        report.count(&format!("min_{}", case.min));
+        report.count(if case.x.is_some() { "x_explicit" } else { "x_default" });
+        if case.two_d {
+            report.count(if case.y.is_some() { "y_explicit" } else { "y_default" });
+        }
+        let reasons = case.invalid_reasons();
+        if reasons.is_empty() {
+            report.count(if case.fail_build.is_some() {
+                "build_valid_strategy_error"
+            } else {
+                "build_valid"
+            });
+        } else {
+            report.count("build_invalid");
+            for r in reasons {
+                report.count(&format!("build_invalid_{r}"));
+            }
+        }
+        if seen.call.is_some() {
+            report.count(&format!("entry_{}", case.call.entry.name()));
+            let count = case.call.qx.len();
+            report.count(match case.fail_at {
+                None => "fail_at_none",
+                Some(k) if k < count => "fail_at_hit",
+                Some(_) => "fail_at_beyond_batch",
+            });
+        }
+    }
+    let hist: Vec<String> = report
+        .hist
+        .iter()
+        .map(|(k, v)| format!("{k}={v}"))
+        .collect();
+    println!("HIST {}", hist.join(" "));
+    println!(
+        "SUMMARY cases={n} builds_invoked={} calls_recorded={} failures={}",
+        report.builds_invoked, report.calls_recorded, report.failures
+    );
 }
